@@ -47,7 +47,7 @@ class Ctx:
         if new and not any(s_ in k_ for s_ in self._STATE_RULES):
             import re
             text = '%s %s' % (instance, detail if detail is not None else '')
-            hit = sorted(set(re.findall(r'\.(_[A-Za-z]\w*)', text)) & new)
+            hit = sorted((set(re.findall(r'\.(_[A-Za-z]\w*)', text)) | set(re.findall(r"'(_[A-Za-z]\w*)'", text))) & new)
             if hit:
                 self._rec('UNDECIDED', rule, instance, where, 'the evidence reads storage this tree introduces (%s), which the rule does not relate to the fields it speaks about: %s'
                           % (', '.join('self.' + h_ for h_ in hit), str(detail)[:160]))
@@ -72,7 +72,7 @@ class Ctx:
                 site_mod = str(where).split(':')[0] if where else None
                 d_ = str(detail if detail is not None else '').strip()
                 absence = d_ in ('0', '[]', 'None', '{}', '()', "['[]']", '') or re.search(
-                    r'no longer writes|\b0 writes|changes by 0\b|\b0 optimiser|\b0 sizer|no test |never tests|matched 0|returns without reaching|^\d+ (fee|price|broker|dequeue)|: 0 [a-z]', d_)
+                    r'no longer writes|\b0 writes|changes by 0\b|\b0 optimiser|\b0 sizer|no test |never tests|matched 0|returns without reaching|^\d+ (fee|price|broker|dequeue)|: 0 [a-z]|^0 [a-z]+|(over|iterates) \[.None.\]', d_)
                 if absence and site_mod in newdefs and not read_all:
                     # something the rule looks for was NOT found, in a module whose classes/functions this tree re-arranged: "absent" cannot be told from "moved to where
                     # the rule does not look"
